@@ -237,6 +237,9 @@ def cosmetic_diff(out1, out2):
     return 'content lengths differ: %d vs %d (first extra %r)' % (len(a), len(b), (a + b)[min(len(a), len(b))])
 
 
+ALIGN_LEAF = '[element without child elements] '
+
+
 def depth_check(out, opts):
     """Every line after the first starts with baseIndent + indent * (elements open at that point);
     a line that starts with a closing tag is aligned with the opening tag (one unit less).
@@ -254,6 +257,31 @@ def depth_check(out, opts):
             events.append((out.index('>', off) if t[2] == () else tag_end(out, off), +1))
         elif t[0] == 'close':
             events.append((off, -1))
+    # a closing tag on its own line is aligned with its opening tag: the line on which the opening tag
+    # stands has the same indentation as the closing tag's line
+    def line_indent(off):
+        ls = out.rfind(nl, 0, off)
+        ls = 0 if ls < 0 else ls + len(nl)
+        le = out.find(nl, ls)
+        line = out[ls:le if le >= 0 else len(out)]
+        return line[:len(line) - len(line.lstrip(' \t'))], out[ls:off]
+    stack = []
+    for t, off in toks:
+        if t[0] == 'open' and not t[3]:
+            if stack:
+                stack[-1][2] = True
+            stack.append([t[1], off, False])
+        elif t[0] == 'open' and stack:
+            stack[-1][2] = True
+        elif t[0] == 'close' and stack:
+            name, ooff, has_kids = stack.pop()
+            ind_c, before_c = line_indent(off)
+            ind_o, _ = line_indent(ooff)
+            if out.rfind(nl, 0, ooff) < 0:
+                ind_o = base + ind_o          # the first line carries no baseIndent
+            if out.rfind(nl, 0, off) >= 0 and before_c.strip(' \t') == '' and ind_c != ind_o:
+                return ('%sclosing tag </%s> at offset %d stands first on its line (indentation %r) but the line of its opening '
+                        'tag (offset %d) is indented %r: not aligned' % ('' if has_kids else ALIGN_LEAF, t[1], off, ind_c, ooff, ind_o))
     lines = out.split(nl)
     pos = 0
     for i, line in enumerate(lines):
